@@ -1,10 +1,10 @@
 package main
 
 import (
-	"os"
 	"fmt"
 	"go/constant"
 	"go/types"
+	"os"
 	"sort"
 	"strings"
 
@@ -97,8 +97,10 @@ func (g *Gen) verifyFunc(fc *FuncContract) (vc *VC) {
 	fr.top = true
 	fr.noPanic = fc.NoPanic
 	st := NewState()
+	vc.fn, vc.topKey = fn, fc.Key
 	for _, p := range fn.Params {
 		v := g.freshVal("p_"+p.Name(), p.Type())
+		vc.params = append(vc.params, replayParam{Name: p.Name(), V: v, Ty: p.Type()})
 		fr.vals[p] = v
 		fr.params[p.Name()] = v
 		if p.Object() != nil {
@@ -190,7 +192,7 @@ func (g *Gen) verifyFunc(fc *FuncContract) (vc *VC) {
 			g.contractError(en, err)
 			continue
 		}
-		g.addObligation(&Obligation{Name: fc.Key + ".ensures." + en.Name, Func: fc.Key, Kind: "ensures", Props: en.Props, Guard: exitG, Goal: v, Src: en.Src,
+		g.addObligation(&Obligation{Name: fc.Key + ".ensures." + en.Name, Func: fc.Key, Kind: "ensures", Props: en.Props, Guard: exitG, Goal: v, Src: en.Src, Clause: en,
 			Pos: fmt.Sprintf("%s:%d", en.File, en.Line)})
 	}
 	// vacuity canary: the exit must be reachable under the assumptions
